@@ -75,6 +75,81 @@ def trace_validate(res, name, n_coroutines, n_traces, n_calls):
             raise common.MachineryError('trace validation accepted a corrupted coroutine trace: %r (corrupted event %d)' % (r2, k))
 
 
+def repo_tests_validate(res, node='tests'):
+    """Pipeline B on the repository's own tests: the suite runs unmodified under harness/pytest_corecorder.py; every
+    CoroutineProcessor a test uses yields one trace, the scripts of its coroutines are derived from what their bodies
+    were seen doing; all traces are validated in one TLC run against CoroutinesTrace.tla, every invariant on."""
+    import json
+    import os
+    import subprocess
+    from .. import tracecheck, tla, replay as _rp
+    if _rp.REPLAY is not None:
+        return
+    out = os.path.join(res.scratch, 'repo_coroutine_tests.json')
+    env = dict(os.environ, VERIF_TRACE_OUT_CO=out, PYTHONPATH=common.VERIF + os.pathsep + os.environ.get('PYTHONPATH', ''))
+    p = subprocess.run(['/venv/bin/python', '-m', 'pytest', '-q', '-p', 'no:cacheprovider', '-p', 'harness.pytest_corecorder', node],
+                       cwd=common.REPO, env=env, stdout=subprocess.PIPE, stderr=subprocess.STDOUT, text=True, timeout=600)
+    if not os.path.exists(out):
+        raise common.MachineryError('recording the repository coroutine tests failed:\n' + p.stdout[-2000:])
+    recs = json.load(open(out))
+    usable = [r for r in recs if not r['unsupported'] and r['events']]
+    G, S, dts, traces = [], {}, {0}, []
+    for k, r in enumerate(usable):
+        def nm(g, k=k):
+            return 't%d_%s' % (k, g)
+        base = len(G)
+        idx = {g: base + i + 1 for i, g in enumerate(r['G'])}
+        G += [nm(g) for g in r['G']]
+        for g in r['G']:
+            S[nm(g)] = tuple((op, idx[a] if op != 'y' and op != 'raise' else a) for op, a in r['Script'][g])
+        dts |= set(r['Dts'])
+        evs = []
+        for e in r['events']:
+            evs.append({'op': e['op'], 'arg': nm(e['arg']) if e['op'] != 'Process' else e['arg'], 'ret': e['ret'],
+                        'log': [[nm(x[0]), x[1], x[2]] for x in e['log']],
+                        'state': [[nm(g), s] for g, s in e['state']],
+                        'pvalue': [[nm(g), (100 + idx[g]) if v == 'RET' else v] for g, v in e['pvalue']],
+                        'held': []})
+        traces.append({'events': evs})
+    cov = res.cov.setdefault('trace_validation', {})
+    cov['repository-tests'] = {'node': node, 'pytest_tail': p.stdout.strip().split('\n')[-1], 'processors_recorded': len(usable),
+                               'tests': [r['test'] for r in usable], 'coroutines': len(G), 'events': sum(len(t['events']) for t in traces),
+                               'unsupported': {r['test']: r['unsupported'] for r in recs if r['unsupported']}}
+    if not traces:
+        return
+    K = dict(G=tuple(G), Script=S, Dts=dts, MaxTimer=10000000, WithKill=True, StartCancelsPendingKill=True, FinishDropsKillMark=True, BodyExceptionCleansUp=True)
+    gen = 'CoroutinesTrace_repo'
+    defs, consts, ov = [], {}, {}
+    for k, v in K.items():
+        if isinstance(v, (bool, int)):
+            consts[k] = tla.to_tla(v)
+        else:
+            defs.append('K_%s == %s' % (k, tla.to_tla(v)))
+            ov[k] = 'K_' + k
+    with open(os.path.join(res.specdir, gen + '.tla'), 'w') as f:
+        f.write('---- MODULE %s ----\nEXTENDS CoroutinesTrace\n%s\n====\n' % (gen, '\n'.join(defs)))
+    rej = tracecheck.validate(res, gen, 'repo-tests', traces, consts, overrides=ov, invariants=INVARIANTS, shards=1)
+    res.traces += len(traces) - len(rej)
+    cov['repository-tests']['accepted'] = len(traces) - len(rej)
+    # the binding is not vacuous: one recorded frame with its last log entry removed must be rejected at that event
+    import copy
+    small = min(range(len(traces)), key=lambda i: (not any(e['log'] for e in traces[i]['events']), len(traces[i]['events'])))
+    bad = copy.deepcopy([traces[small]])
+    kk = next((i for i, e in enumerate(bad[0]['events']) if e['log']), None)
+    if kk is not None and not rej:
+        bad[0]['events'][kk]['log'] = bad[0]['events'][kk]['log'][:-1]
+        r2 = tracecheck.validate(res, gen, 'repo-tests-corrupted', bad, consts, overrides=ov, shards=1)
+        cov['repository-tests']['corrupted_trace_rejected_at_event'] = r2[0][1] if r2 else None
+        if not (len(r2) == 1 and r2[0][1] == kk):
+            raise common.MachineryError('trace validation accepted a corrupted repository-test trace: %r (corrupted event %d)' % (r2, kk))
+    for idx_, at in rej:
+        t = usable[idx_] if idx_ >= 0 else None
+        res.violation('execution of repository test %s not explained by Coroutines.tla (matched %s events)' % (t and t['test'], at),
+                      {'test': t and t['test'], 'matched_events': at, 'scripts': t and t['Script'],
+                       'history': [[e['op'], e['arg'], e['ret']] for e in (t['events'][:at + 1] if t and isinstance(at, int) else [])],
+                       'next_event': t['events'][at] if t and isinstance(at, int) and at < len(t['events']) else None})
+
+
 def apalache_timer_core(res):
     """Optional extra (unbounded integers): Apalache discharges the inductive invariant of spec/TimerCore.tla, the
     timing core of the coroutine scheduler, and the wake-exactly-on-time statement from any state satisfying it.
